@@ -237,3 +237,151 @@ Example C11_old_rk_rules_witness :
                   [OSet (3, 1) 0; OInt 10 false [10]; OInt 8 false []] in
    r_status s = INTERPOLATED /\ r_t s = 8 /\ r_ytag s = 0).
 Proof. vm_compute. repeat split. Qed.
+
+(* ======================================================================
+   Part 3 - IntegratorKrylov (krylov.py): the validity range `_max_step` of a
+   Krylov subspace and its two markers (-inf "not computed", +inf "happy
+   breakdown").  Model in Model/C11_krylov.v; Lanczos size, step bound and
+   propagation inside the subspace are oracles (ldim, bnd, ev).
+   Quantifiers: every krylov_dim, system size, nsteps, both settings of
+   always_compute_step, every random ket drawn by _prepare, every history of
+   set_state / integrate calls with any states and times.
+   ====================================================================== *)
+From QV Require Import Model.C11_krylov Proofs.C11_krylov.
+
+(* After any history: once a state is set the "not computed" marker is gone;
+   +inf is in force only if the CURRENT state broke down (a bound left behind
+   by an earlier, special state is never kept for a generic one); a finite
+   bound is the value computed for a recorded state, which is the current
+   state when always_compute_step is on. *)
+Theorem C11_krylov_bound_belongs_to_state :
+  forall St kdim N ldim bnd ev always nsteps rand ops,
+    let s := krun St kdim N ldim bnd ev always nsteps
+                  (prepare St kdim N ldim bnd always rand) ops in
+    (forall v, k_max s = Fin v -> exists y, k_src s = Some y /\ v = bnd y) /\
+    (k_isset s = true ->
+     exists x, k_cur s = Some x /\ k_max s <> NegInf /\
+               (k_max s = PosInf -> brk_set St kdim N ldim x = true) /\
+               (always = true -> forall v, k_max s = Fin v -> k_src s = Some x)).
+Proof.
+  intros St kdim N ldim bnd ev always nsteps rand ops s.
+  destruct (krun_good St kdim N ldim bnd ev always nsteps ops _
+              (prepare_good St kdim N ldim bnd always rand)) as [(HP & _ & HS & _) _].
+  split; [exact HP|exact HS].
+Qed.
+Print Assumptions C11_krylov_bound_belongs_to_state.
+
+(* Every propagation inside a Krylov subspace, in every history, stays inside
+   the validity range in force (dt <= _max_step, never with the -inf marker),
+   and no call hands out a NaN state. *)
+Theorem C11_krylov_validity_range_respected :
+  forall St kdim N ldim bnd ev always nsteps rand ops,
+    let s0 := prepare St kdim N ldim bnd always rand in
+    Forall (fun p => within (fst p) (snd p))
+           (k_uses (krun St kdim N ldim bnd ev always nsteps s0 ops)) /\
+    Forall (fun r => r <> RGarbage)
+           (kresults St kdim N ldim bnd ev always nsteps s0 ops).
+Proof.
+  intros St kdim N ldim bnd ev always nsteps rand ops s0.
+  destruct (krun_good St kdim N ldim bnd ev always nsteps ops _
+              (prepare_good St kdim N ldim bnd always rand)) as [(_ & HU & _) HR].
+  split; [exact HU|exact HR].
+Qed.
+Print Assumptions C11_krylov_validity_range_respected.
+
+(* The state handed out for time t depends only on the state and time last
+   set, not on the bound history of the object (how many hops, which bounds):
+   it is the propagation of the set state over t - t0, or the nsteps error. *)
+Theorem C11_krylov_answer_independent_of_history :
+  forall St kdim N ldim bnd (ev : St -> Z -> St) always nsteps,
+    (forall x a b, ev (ev x a) b = ev x (a + b)) ->
+  forall rand ops t0 x t,
+    let s := set_state St kdim N ldim bnd always
+               (krun St kdim N ldim bnd ev always nsteps
+                     (prepare St kdim N ldim bnd always rand) ops) t0 x in
+    snd (integrate St kdim N ldim bnd ev always nsteps s t) = RRaise \/
+    snd (integrate St kdim N ldim bnd ev always nsteps s t) = ROk t (ev x (t - t0)).
+Proof.
+  intros St kdim N ldim bnd ev always nsteps Hadd rand ops t0 x t s.
+  destruct (krun_good St kdim N ldim bnd ev always nsteps ops _
+              (prepare_good St kdim N ldim bnd always rand)) as [HG _].
+  destruct (set_state_good St kdim N ldim bnd always _ t0 x HG) as (HG1 & _ & Hc & Ht).
+  pose proof (integrate_answer St kdim N ldim bnd ev always nsteps Hadd s t x HG1 Hc) as H.
+  unfold s in H at 3. rewrite Ht in H. exact H.
+Qed.
+Print Assumptions C11_krylov_answer_independent_of_history.
+
+(* non-vacuity (and the scenario of the seeded change C11_1): krylov_dim 3 in
+   a 10-dimensional system; the object is first given a state that breaks
+   down (bound +inf), then a generic state: the bound is recomputed from the
+   generic state, and a long integration proceeds in hops of that bound. *)
+Example C11_krylov_nonvacuous :
+  let special : ost := [(2%nat, 1)] in
+  let generic : ost := [(4%nat, 5); (4%nat, 7); (4%nat, 7); (4%nat, 7)] in
+  let s0 := prepare ost 3 10 o_ldim o_bnd false [(4%nat, 9)] in
+  ktrace 3 10 false 100 s0 [KSet 0 special; KInt 40; KSet 0 generic; KInt 12; KInt 13]
+  = [(0, 0, PosInf, true, 1%nat); (0, 0, PosInf, true, 1%nat);
+     (0, 0, Fin 5, true, 2%nat); (0, 10, Fin 5, true, 2%nat); (0, 10, Fin 5, true, 2%nat)] /\
+  k_uses (krun ost 3 10 o_ldim o_bnd o_ev false 100 s0
+               [KSet 0 special; KInt 40; KSet 0 generic; KInt 12; KInt 13])
+  = [(3, Fin 5); (2, Fin 5); (5, Fin 5); (5, Fin 5); (40, PosInf)].
+Proof. vm_compute. split; reflexivity. Qed.
+
+(* ======================================================================
+   Part 4 - IntegratorScipyAdams / IntegratorScipyBDF (scipy_integrator.py):
+   the dense-output window (_back, _front) kept by mcstep around SciPy's
+   zvode.  Model in Model/C11_zvode.v; zvode enters by its documented contract
+   and an oracle for the internal time reached by a step.
+   Quantifiers: every history of set_state / mcstep calls with any times
+   (forward, back inside the window, behind it, repeated), every admissible
+   oracle stream.
+   ====================================================================== *)
+From QV Require Import Model.C11_zvode Proofs.C11_zvode.
+
+(* After any history: _back <= ode.t <= _front, and the window qutip keeps IS
+   zvode's interpolation range [tcur - hu, tcur]; every zvode call issued by
+   mcstep respected zvode's input contract (interpolation targets not more
+   than one step behind tcur; a step is only taken from tcur itself), so the
+   "illegal input" failure of zvode cannot be produced by any order of calls. *)
+Theorem C11_zvode_window_is_interpolation_range :
+  forall ops, z_oracle_ok z_new ops ->
+    let s := z_run z_new ops in
+    (z_isset s = true ->
+     z_back s <= z_t s <= z_front s /\ z_front s = z_tcur s /\
+     z_back s = z_tcur s - z_hu s /\ 0 <= z_hu s) /\
+    z_contract z_new ops = true.
+Proof. intros ops HO s. exact (z_run_spec ops z_new z_new_inv HO). Qed.
+Print Assumptions C11_zvode_window_is_interpolation_range.
+
+(* One call from any reachable state: a target inside the window is answered
+   at exactly that time; any answer lies between _back and the target; the
+   only error is a target behind the window (or no state set), which leaves
+   the object unchanged; the window never moves backward. *)
+Theorem C11_zvode_mcstep_answer :
+  forall s t f, ZInv s ->
+    (z_isset s = true -> z_front s < t -> z_front s <= z_t s -> z_tcur s < f <= t) ->
+    let '(s1, (raised, tout, ok)) := z_mcstep s t f in
+    ZInv s1 /\ ok = true /\ z_isset s1 = z_isset s /\
+    (raised = false -> tout = z_t s1 /\ z_back s <= tout <= t \/ tout = z_t s /\ z_t s = t) /\
+    (raised = false -> z_back s <= t <= z_front s -> tout = t) /\
+    (raised = true -> s1 = s /\ (z_isset s = false \/ t < z_back s)) /\
+    z_front s <= z_front s1.
+Proof. exact z_mcstep_spec. Qed.
+Print Assumptions C11_zvode_mcstep_answer.
+
+(* set_state erases the past: whatever two objects did before, every later
+   history of calls is answered identically *)
+Theorem C11_zvode_set_state_forgets :
+  forall s1 s2 t ops, z_trace (z_set_state s1 t) ops = z_trace (z_set_state s2 t) ops.
+Proof. exact z_set_forgets. Qed.
+Print Assumptions C11_zvode_set_state_forgets.
+
+Example C11_zvode_nonvacuous :
+  let ops := [ZSet 0; ZMc 10 4; ZMc 2 0; ZMc 3 0; ZMc 10 0; ZMc 10 9; ZMc 1 0; ZMc 5 0] in
+  z_oracle_ok z_new ops /\
+  z_trace z_new ops
+  = [(false, 0, (true, 0, 0, 0, 0)); (false, 4, (true, 0, 4, 4, 4));
+     (false, 2, (true, 0, 4, 2, 4)); (false, 3, (true, 0, 4, 3, 4));
+     (false, 4, (true, 0, 4, 4, 4)); (false, 9, (true, 4, 9, 9, 9));
+     (true, 9, (true, 4, 9, 9, 9)); (false, 5, (true, 4, 9, 5, 9))].
+Proof. split; [simpl; repeat split; intros; lia|vm_compute; reflexivity]. Qed.
